@@ -187,6 +187,10 @@ def main():
                 j = next((i for i, (a, b) in enumerate(zip(im, ml)) if a != b), min(len(im), len(ml)))
                 R.violation("correspondence", "storage accessors: after %s the real functions give `%s`, the interpreted source terms (gen/StorageSrc.v) give `%s`" % (
                     json.dumps(sq[:j + 1]), im[j] if j < len(im) else "-", ml[j] if j < len(ml) else "-"), {"ops": sq[:j + 1], "impl": im[:j + 1], "model": ml[:j + 1]}, key={"kind": "storage-accessors"}, no_input=True)
+    # the statements the translator cut out of the source, run by CPython with scripted stand-ins, against their translation
+    # interpreted inside Coq (lib/storage_corr.py)
+    import storage_corr
+    R.coverage["source_fragment_cases"] = storage_corr.fragment_correspondence(R, ['wrapped', 'oldwrapped'], 600 if R.thorough else 60)
     if not proved:
         R.violation("proof", "proof obligations of props/C05.v no longer check: " + str(R.broken_proof)[-800:],
                     {"theorem_file": "coq/props/C05.v", "log": R.broken_proof}, no_input=not any(v["kind"] == "property" for v in R.violations))
